@@ -47,6 +47,8 @@ def gen_measurements(rng, max_points):
     for i in range(n):
         t = temps[i % n_t]
         x = rng.uniform(0.02, 0.98)
+        if rng.random() < 0.08:
+            x = rng.choice([0.0, 1.0])  # a measured point exactly at a pure-component boundary (composition grid 0 ... 1)
         data.append(Measurement(x=x, t=t, p=law(x, t) * math.exp(rng.gauss(0, noise))))
     return Measurements(data=data), {"law": desc, "temps": temps, "points": n, "noise": noise}
 
